@@ -564,8 +564,8 @@ class Matrix3(Matrix):
 
             mask = (sy <= Matrix3.EPSILON)
             if np.any(mask):
-                ax[mask] = np.arctan2(-matvals[...,j,k], matvals[...,j,j])
-                ay[mask] = np.arctan2( sy,               matvals[...,i,i])
+                ax[mask] = np.arctan2(-matvals[...,j,k], matvals[...,j,j])[mask]
+                ay[mask] = np.arctan2( sy,               matvals[...,i,i])[mask]
                 az[mask] = 0.
 
         else:
